@@ -42,9 +42,12 @@ pub async fn main() -> anyhow::Result<()> {
 async fn startup(config: ServerConfig<SslConfig>) {
     match config.protocol {
         Protocol::Shadowsocks => shadowsocks::startup(&config).await,
-        Protocol::VMess => {
-            merge_result(tokio::join!(startup_quic(&config, &config, vmess::new_codec), startup_tcp(&config, &config, vmess::new_codec)))
-        }
+        Protocol::VMess => match vmess::new_codec(&config) {
+            // the user ids are read before a listener is opened: an id that is no UUID stops this entry here, not at
+            // the first connection (where it took the accept loop down with it)
+            Err(e) => Err(e),
+            Ok(_) => merge_result(tokio::join!(startup_quic(&config, &config, vmess::new_codec), startup_tcp(&config, &config, vmess::new_codec))),
+        },
         Protocol::Trojan => {
             merge_result(tokio::join!(startup_quic(&config, &config, trojan::new_codec), startup_tcp(&config, &config, trojan::new_codec)))
         }
